@@ -596,17 +596,16 @@ def run(ctx):
                     ok = ok and outer == "Mul"
                     det = f"fields {sorted(d.names & {'plate_size', 'positions', 'x', 'y'})}, ops {sorted(d.ops)}, outer {outer}, 0.5 {'present' if F32_HALF in d.consts else 'absent'}"
                 ctx.ob("TERA", f"centre-{axis}", ok, f"position.{i} is computed from {det}; must be plate_size * ({axis} + 0.5)", tb.file, tb.line, sample=(i == 0))
-            from ..fmt import Template, spec_width
+            from ..strx import StrX as _StrX, show as _sshow
 
-            tpl = []
-            for f_ in ctx.wire["fns"]:
-                if f_["name"].split("::")[-1] == "from_existing" and f_["file"] == "src/tera.rs":
-                    tpl += [Template(m_) for m_ in f_["macros"] if m_["name"] == "format"]
+            tsx = _StrX(tb)
+            fsites = [pcs for _bi, pcs in tsx.format_sites() if any(p_[0] == "lit" and ".mdl" in p_[1] for p_ in pcs)]
             okf = False
-            if len(tpl) == 1 and tpl[0].template is not None:
-                pc = tpl[0].pieces
-                okf = len(pc) == 2 and pc[0][0] == "arg" and spec_width(pc[0][2]) == (4, 10, True) and pc[0][3] == "i" and pc[1] == ("lit", ".mdl")
-            ctx.ob("TERA", "filename", okf, f"plate file names are formatted as {tpl[0].template if tpl else '?'!r} of the plate index; must be the zero-padded 4-digit index + .mdl", tb.file, tb.line)
+            if len(fsites) == 1:
+                pc = fsites[0]
+                if len(pc) == 2 and pc[0][0] == "arg" and pc[0][1] == "display" and pc[0][2] == (4, 10, True) and pc[1] == ("lit", ".mdl") and pc[0][3] is not None:
+                    okf = bool(P.loop_var(ix, pc[0][3])) or "next" in {_last(c_) for c_ in derive(ix, pc[0][3]).calls}
+            ctx.ob("TERA", "filename", okf, f"plate file names are formatted as {[_sshow(x) for x in fsites]} of the plate index; must be the zero-padded 4-digit index + .mdl", tb.file, tb.line)
         # writer: inverse formula inside the map closure, constants of the header
         wix = index_of(wb)
         aggs = list(_struct_agg(wb, "tera::TerrainHeader"))
